@@ -98,6 +98,29 @@ def viewFieldsOfTag : String → Option (List String)
   | "bt" => some MsgBridgeTokenClaim.viewFields | "osu" => some MsgOracleSetUpdatedClaim.viewFields
   | _ => none
 
+/-- the code that executes a claim of this type, as the REGENERATED instruction list (`Gen/C03.lean` `flow_<tag>`, compiled from
+the handler's body by go/extract/c03flow.go) -/
+def flow : AnyClaim → List FInstr
+  | stf _ => FxVerif.Gen.C03.flow_stf | bc _ => FxVerif.Gen.C03.flow_bc | bcr _ => FxVerif.Gen.C03.flow_bcr
+  | ste _ => FxVerif.Gen.C03.flow_ste | bt _ => FxVerif.Gen.C03.flow_bt | osu _ => FxVerif.Gen.C03.flow_osu
+
+/-- the keeper function(s) that flow was compiled from -/
+def flowFns : AnyClaim → List String
+  | stf _ => FxVerif.Gen.C03.flowFns_stf | bc _ => FxVerif.Gen.C03.flowFns_bc | bcr _ => FxVerif.Gen.C03.flowFns_bcr
+  | ste _ => FxVerif.Gen.C03.flowFns_ste | bt _ => FxVerif.Gen.C03.flowFns_bt | osu _ => FxVerif.Gen.C03.flowFns_osu
+
+/-- executing claim `c` in state `st`: its type's flow interpreted over ITS handler view, for any meaning `sem` of the opaque
+expressions (the real keepers), with `fuel` steps -/
+def runFlow {σ ν : Type} (sem : FSem σ ν) (fuel : Nat) (st : σ) (c : AnyClaim) : FResult σ ν :=
+  exec sem c.flow c.handlerView fuel 0 {} st
+
+/-- the path the release BEFORE `b7515bc` hashed for this claim (three formats changed; see `Model/C03.lean`) -/
+def legacyPath : AnyClaim → Str
+  | .bc c => legacyBridgeCallPath c
+  | .bcr c => legacyBridgeCallResultPath c
+  | .bt c => legacyBridgeTokenPath c
+  | c => c.path
+
 end AnyClaim
 
 /-- `types.Attestation` under its store key `nonce ‖ hash` -/
@@ -177,20 +200,13 @@ def getAtt (atts : List (Att η)) (n : Nat) (h : η) : Option (Att η) := atts.f
 
 def setAtt (atts : List (Att η)) (a : Att η) : List (Att η) := a :: atts.filter (fun b => !sameKey a.nonce a.hash b)
 
+/-- `&types.Attestation{Observed: false, Claim: anyClaim}` filed under the voter's key -/
+def freshAtt (key : AnyClaim → η) (c : AnyClaim) : Att η :=
+  { nonce := c.nonce, hash := key c, claim := c, votes := [], observed := false }
+
 /-- the attestation stored under the key of claim `c` (`GetAttestation`), or a new one recording `c` -/
 def attFor (key : AnyClaim → η) (s : AState η) (c : AnyClaim) : Att η :=
-  (getAtt s.atts c.nonce (key c)).getD { nonce := c.nonce, hash := key c, claim := c, votes := [], observed := false }
-
-/-- `att.Votes = append(att.Votes, oracle)` -/
-def withVote (a : Att η) (o : Nat) (c : AnyClaim) : Att η := { a with votes := a.votes ++ [(o, c)] }
-
-/-- the attestation of this vote, with the vote appended, and the state after `SetAttestation` -/
-def votedAtt (key : AnyClaim → η) (s : AState η) (o : Nat) (c : AnyClaim) : Att η := withVote (attFor key s c) o c
-
-def afterVote (s : AState η) (a : Att η) : AState η := { s with atts := setAtt s.atts a }
-
-/-- the outer guard of `Attest`: `!att.Observed && claim.GetEventNonce() == GetLastObservedEventNonce()+1` -/
-def eligible (s : AState η) (a : Att η) (c : AnyClaim) : Bool := !a.observed && c.nonce == s.lastObserved + 1
+  (getAtt s.atts c.nonce (key c)).getD (freshAtt key c)
 
 /-- store iteration order: attestations of one nonce come in the order of their hash -/
 def insertBy (le : η → η → Bool) (a : Att η) : List (Att η) → List (Att η)
@@ -198,6 +214,48 @@ def insertBy (le : η → η → Bool) (a : Att η) : List (Att η) → List (At
   | b :: r => if le a.hash b.hash then a :: b :: r else b :: insertBy le a r
 
 def sortAtts (le : η → η → Bool) (xs : List (Att η)) : List (Att η) := xs.foldr (insertBy le) []
+
+/-- what a lookup that is NOT under the voter's own key may find: the first open attestation of the event nonce stored under
+another hash (e.g. the hash an earlier release computed for the event) -/
+def otherOpen (le : η → η → Bool) (key : AnyClaim → η) (s : AState η) (c : AnyClaim) : Option (Att η) :=
+  (sortAtts le (s.atts.filter fun a => a.nonce == c.nonce && !a.observed && !(a.hash == key c))).head?
+
+/-- the assignments to the attestation variable of `Attest` (REGENERATED table `attestLookup`), in program order, each one
+reached only if the earlier ones yielded nil: the attestation the vote is appended to, and the stored attestation it was taken
+from when that is not the one under the voter's key -/
+def lookupWith (le : η → η → Bool) (key : AnyClaim → η) (s : AState η) (c : AnyClaim) : List AttSource → Att η × Option (Att η)
+  | [] => (freshAtt key c, none)
+  | .ownKey :: r =>
+    match getAtt s.atts c.nonce (key c) with
+    | some a => (a, none)
+    | none => lookupWith le key s c r
+  | .fresh :: _ => (freshAtt key c, none)
+  | .otherStored _ :: r =>
+    match otherOpen le key s c with
+    | some a => (a, some a)
+    | none => lookupWith le key s c r
+
+/-- `att.Votes = append(att.Votes, oracle)` -/
+def withVote (a : Att η) (o : Nat) (c : AnyClaim) : Att η := { a with votes := a.votes ++ [(o, c)] }
+
+/-- the attestation of this vote with the vote appended, as `SetAttestation(claim.GetEventNonce(), claim.ClaimHash(), att)`
+files it: under the VOTER's key -/
+def votedAttWith (srcs : List AttSource) (le : η → η → Bool) (key : AnyClaim → η) (s : AState η) (o : Nat) (c : AnyClaim) : Att η :=
+  { withVote (lookupWith le key s c srcs).1 o c with nonce := c.nonce, hash := key c }
+
+/-- the attestation table before `SetAttestation`: an attestation taken from another key no longer sits there -/
+def baseWith (srcs : List AttSource) (le : η → η → Bool) (key : AnyClaim → η) (s : AState η) (c : AnyClaim) : AState η :=
+  match (lookupWith le key s c srcs).2 with
+  | none => s
+  | some m => { s with atts := s.atts.filter fun b => !sameKey m.nonce m.hash b }
+
+/-- the attestation of this vote when `Attest` looks under the voter's key only -/
+def votedAtt (key : AnyClaim → η) (s : AState η) (o : Nat) (c : AnyClaim) : Att η := withVote (attFor key s c) o c
+
+def afterVote (s : AState η) (a : Att η) : AState η := { s with atts := setAtt s.atts a }
+
+/-- the outer guard of `Attest`: `!att.Observed && claim.GetEventNonce() == GetLastObservedEventNonce()+1` -/
+def eligible (s : AState η) (a : Att η) (c : AnyClaim) : Bool := !a.observed && c.nonce == s.lastObserved + 1
 
 /-- the attestations a call site hands to `TryAttestation`, in order -/
 def candidates (le : η → η → Bool) (s : AState η) (a1 : Att η) (c : AnyClaim) : AttSel → List (Att η)
@@ -243,22 +301,23 @@ def hit (sites : List TrySite) (le : η → η → Bool) (s1 : AState η) (a1 : 
   if eligible s1 a1 c then trySites le s1 a1 c sites else none
 
 /-- one `MsgClaim`: oracle `o` submits claim object `c`; `handlerPanics`: the handler panics if it is run now (the
-transaction fails and nothing is written) -/
-def voteWith (sites : List TrySite) (key : AnyClaim → η) (le : η → η → Bool) (s : AState η) (o : Nat) (c : AnyClaim)
-    (handlerPanics : Bool) : AState η × VoteResult :=
+transaction fails and nothing is written).  `srcs`: where `Attest` gets the attestation from; `sites`: its
+`TryAttestation` calls -/
+def voteWith (sites : List TrySite) (srcs : List AttSource) (key : AnyClaim → η) (le : η → η → Bool) (s : AState η) (o : Nat)
+    (c : AnyClaim) (handlerPanics : Bool) : AState η × VoteResult :=
   if !logicCheck s c then (s, .logicCheck)
   else if c.nonce != lastNonceOf s o + 1 then (s, .nonContiguous)
   else
-    match hit sites le (afterVote s (votedAtt key s o c)) (votedAtt key s o c) c with
+    match hit sites le (afterVote (baseWith srcs le key s c) (votedAttWith srcs le key s o c)) (votedAttWith srcs le key s o c) c with
     | some (a, ch) =>
       if handlerPanics then (s, .panic)
-      else (setLast (observe key (afterVote s (votedAtt key s o c)) a ch) o c.nonce, .ok)
-    | none => (setLast (afterVote s (votedAtt key s o c)) o c.nonce, .ok)
+      else (setLast (observe key (afterVote (baseWith srcs le key s c) (votedAttWith srcs le key s o c)) a ch) o c.nonce, .ok)
+    | none => (setLast (afterVote (baseWith srcs le key s c) (votedAttWith srcs le key s o c)) o c.nonce, .ok)
 
-/-- the call sites are the ones found in the source -/
+/-- the lookup and the call sites are the ones found in the source -/
 def vote (key : AnyClaim → η) (le : η → η → Bool) (s : AState η) (o : Nat) (c : AnyClaim) (handlerPanics : Bool) :
     AState η × VoteResult :=
-  voteWith FxVerif.Gen.C03.attestTrySites key le s o c handlerPanics
+  voteWith FxVerif.Gen.C03.attestTrySites FxVerif.Gen.C03.attestLookup key le s o c handlerPanics
 
 /-- operations: votes, and everything else that happens to the state the votes read -/
 inductive Op where
@@ -276,8 +335,9 @@ def execute (s : AState η) (n : Nat) (handlerFails : Bool) : AState η :=
   | none => s
   | some c => if handlerFails then s else { s with pending := s.pending.filter (fun p => p.1 != n), ran := s.ran ++ [c] }
 
-def stepWith (sites : List TrySite) (key : AnyClaim → η) (le : η → η → Bool) (s : AState η) : Op → AState η
-  | .vote o c hp => (voteWith sites key le s o c hp).1
+def stepWith (sites : List TrySite) (srcs : List AttSource) (key : AnyClaim → η) (le : η → η → Bool) (s : AState η) :
+    Op → AState η
+  | .vote o c hp => (voteWith sites srcs key le s o c hp).1
   | .setPower o none => { s with powers := s.powers.filter (fun p => p.1 != o) }
   | .setPower o (some p) => { s with powers := setAssoc s.powers o p }
   | .setTotal t => { s with total := t }
@@ -287,12 +347,13 @@ def stepWith (sites : List TrySite) (key : AnyClaim → η) (le : η → η → 
   | .setOracleLast o (some n) => { s with lastByOracle := setAssoc s.lastByOracle o n }
   | .execute n f => execute s n f
 
-def runWith (sites : List TrySite) (key : AnyClaim → η) (le : η → η → Bool) (s : AState η) (ops : List Op) : AState η :=
-  ops.foldl (stepWith sites key le) s
+def runWith (sites : List TrySite) (srcs : List AttSource) (key : AnyClaim → η) (le : η → η → Bool) (s : AState η)
+    (ops : List Op) : AState η :=
+  ops.foldl (stepWith sites srcs key le) s
 
 /-- the state machine with the call sites found in the source; `le` is the order in which the store iterates hashes -/
 def run (key : AnyClaim → η) (le : η → η → Bool) (s : AState η) (ops : List Op) : AState η :=
-  runWith FxVerif.Gen.C03.attestTrySites key le s ops
+  runWith FxVerif.Gen.C03.attestTrySites FxVerif.Gen.C03.attestLookup key le s ops
 
 /-- the claims submitted by an operation list -/
 def Op.claims : List Op → List AnyClaim
